@@ -147,8 +147,8 @@ Definition sk_cast (k : sk) (u : Z) : Z :=
   end.
 Definition dec_scalar (k : sk) : dec := fun s _ =>
   match k with
-  | KF32 => match read_fixed 4 s with Some (v, s') => Ok (VInt v) s' | None => Fail end
-  | KF64 => match read_fixed 8 s with Some (v, s') => Ok (VInt v) s' | None => Fail end
+  | KF32 => match read_fixed 4 s with Some (v, s') => Ok (VInt (sk_cast k v)) s' | None => Fail end
+  | KF64 => match read_fixed 8 s with Some (v, s') => Ok (VInt (sk_cast k v)) s' | None => Fail end
   | KI64 | KU64 | KEnum =>
       match read_varint s with VOk v s' => Ok (VInt (sk_cast k (u64 v))) s' | _ => Fail end
   | _ => match read_varint s with VOk v s' => Ok (VInt (sk_cast k (u32 v))) s' | _ => Fail end
